@@ -81,14 +81,17 @@ def lat(values, seed, r=R_MASTER):
     so seeds 0..r-1 tile a master grid r times denser; seed 0 is the canonical lattice."""
     s = seed % r
     if s == 0 or len(values) < 2:
-        return list(values)
-    out = []
-    for i, v in enumerate(values):
-        if i + 1 < len(values):
-            out.append(v + (values[i + 1] - v) * s / r)
-        else:
-            out.append(v - (v - values[i - 1]) * s / (2 * r))
-    return out
+        out = list(values)
+    else:
+        out = []
+        for i, v in enumerate(values):
+            if i + 1 < len(values):
+                out.append(v + (values[i + 1] - v) * s / r)
+            else:
+                out.append(v - (v - values[i - 1]) * s / (2 * r))
+    # no lattice point is a "round" decimal: a relative jitter of a few 1e-9 (physically nothing) makes slips that round,
+    # truncate or compare with a decimal tolerance visible at the inputs themselves
+    return [v * (1.0 + (2 * i + 1) * 1.13e-9) for i, v in enumerate(out)]
 
 
 class Space:
